@@ -15,7 +15,7 @@ for id in "${ids[@]}"; do
     C16-8) checks="C03" ;;
     C04-10) checks="C04 C01" ;;
     C01-11) checks="C03" ;;
-    C03-13) checks="C14" ;;
+    C03-13|C03-14) checks="C14" ;;
     C10-13|C15-12) checks="C12" ;;
     C12-13) checks="C15" ;;
     C13-12) checks="C02" ;;
